@@ -67,7 +67,12 @@ impl TextDecorator for AsciiDecorator {
         self.s.ul.clone()
     }
     fn ordered_item_prefix(&self, i: i64) -> String {
-        format!("{}{}", i, self.s.ol_suffix)
+        if self.s.ol_labels.is_empty() {
+            format!("{}{}", i, self.s.ol_suffix)
+        } else {
+            let n = self.s.ol_labels.len() as i64;
+            format!("{}{}", self.s.ol_labels[i.rem_euclid(n) as usize], self.s.ol_suffix)
+        }
     }
     fn make_subblock_decorator(&self) -> Self {
         self.clone()
